@@ -73,6 +73,11 @@ def construct_expression_tree(
 
         function_name = expression_ast[0]
         extracted_function = domain_functions[function_name]
+        if len(expression_ast) - 1 != len(extracted_function.signature):
+            raise SyntaxError(
+                f"The function {function_name} was used with a wrong number of arguments - {expression_ast}"
+            )
+
         if len(expression_ast) == 1:
             return AnyNode(id=str(extracted_function), value=extracted_function)
 
